@@ -929,3 +929,31 @@ Proof.
   intros supported t H. apply auto_discover_unenc in H. unfold password_mech in H.
   repeat (apply orb_false_iff in H; destruct H as [H ?]). auto.
 Qed.
+
+(* ------------------------------------------------------------------------------------------------ *)
+(* C07: password confinement — mechanism level, and the complete finite configuration table (T2) *)
+
+Definition noenc_type (t : bytes) : bool :=
+  bytes_eqb t Gen.smtp_auth_plain_noenc || bytes_eqb t Gen.smtp_auth_login_noenc.
+
+(* the built-in mechanisms that carry the password refuse to start without TLS on a non-localhost server *)
+Lemma password_mechs_refuse : forall a,
+  a = plain_impl false \/ a = login_impl false -> a_start a false false = SErr EUnenc.
+Proof. intros a [H | H]; subst; reflexivity. Qed.
+
+Definition never_pass (a : auth_impl) : Prop :=
+  (forall tl lh m ir, a_start a tl lh = SOk m ir -> ir <> Some TPass) /\ (forall k more, a_next a k more <> NResp TPass).
+
+Lemma other_mechs_never_pass : forall a,
+  a = cram_impl \/ a = xoauth2_impl \/ (exists n, a = scram_impl n) -> never_pass a.
+Proof.
+  intros a [H | [H | [n H]]]; subst; split; simpl; intros;
+    try (inversion H; subst; discriminate); try (destruct more; discriminate).
+Qed.
+
+(* the preference lists of auto-discovery never name a *-NOENC type *)
+Lemma prefer_lists_no_noenc :
+  forallb (fun t => negb (noenc_type t)) Gen.auth_prefer_encrypted = true /\
+  forallb (fun t => negb (noenc_type t)) Gen.auth_prefer_unencrypted = true.
+Proof. split; vm_compute; reflexivity. Qed.
+
